@@ -64,6 +64,13 @@ func VerifC05Crash() {
 	var acks []ack
 	written := map[string]bool{}
 	writeEvents := 0
+	type keptEvent struct {
+		ev     stores.EventReplicated
+		hashes []string
+	}
+	var kept []keptEvent
+	announced := map[string]int{}
+	var remoteWritten []string
 	hb := env.Bus.(*vstub.HookBus)
 	hb.OnEmit = func(evt interface{}) {
 		switch e := evt.(type) {
@@ -81,6 +88,13 @@ func VerifC05Crash() {
 			vstub.Assert(listed, "C16 on EventWrite the view already reflects the entry")
 		case stores.EventReplicated:
 			n := env.Effects.Len()
+			// a subscriber may read this event arbitrarily late: keep it, with what it announced now
+			var announcedNow []string
+			for _, x := range e.Entries {
+				announcedNow = append(announcedNow, x.GetHash().String())
+				announced[x.GetHash().String()]++
+			}
+			kept = append(kept, keptEvent{ev: e, hashes: announcedNow})
 			for _, x := range e.Entries {
 				acks = append(acks, ack{hash: x.GetHash().String(), effects: n})
 				_, inLog := a.OpLog().Get(x.GetHash())
@@ -117,6 +131,7 @@ func VerifC05Crash() {
 				return
 			}
 			written[e.GetHash().String()] = true
+			remoteWritten = append(remoteWritten, e.GetHash().String())
 			if err := a.Sync(ctx, remote.OpLog().Heads().Slice()); err != nil {
 				vstub.Fail("C05 Sync failed")
 				return
@@ -125,6 +140,20 @@ func VerifC05Crash() {
 		}
 	}
 	vstub.Assert(writeEvents == writes, "C16 exactly one write event per successful local write")
+	// a subscriber that reads the replicated events only now (however slowly it
+	// reads) still sees, in each of them, the batch it announced when emitted;
+	// every merged remote entry was announced by exactly one event
+	for _, k := range kept {
+		vstub.Assert(len(k.ev.Entries) == len(k.hashes), "C16 a replicated event read late still announces its own batch (size)")
+		if len(k.ev.Entries) == len(k.hashes) {
+			for j, x := range k.ev.Entries {
+				vstub.Assert(x.GetHash().String() == k.hashes[j], "C16 a replicated event read late still announces its own batch")
+			}
+		}
+	}
+	for _, h := range remoteWritten {
+		vstub.Assert(announced[h] == 1, "C16 every merged remote entry is announced by exactly one replicated event")
+	}
 	for _, e := range a.OpLog().Values().Slice() {
 		written[e.GetHash().String()] = true
 	}
